@@ -15,14 +15,13 @@ TEXT = {
             "proved against the spec; any CRep representation (zero summaries or expanded zeros) has the same root. Other "
             "routes (decode, from_obj) tied by correspondence.",
             "Coq proof by induction on ty + CRep invariant; vm_compute correspondence", "5 (C01)"),
-    "C02": ("Theorems: the offset / count bookkeeping of the sequence and container serialisers equals the specification's "
-            "ser_parts for ARBITRARY element encodings (fixed parts, 4-byte offsets, variable parts in order; returned "
-            "count = bytes written); leaf kinds uintN / boolean serialise to the spec bytes; spec encoding lengths lie "
-            "within the type bounds; C02_constructed: for every type built from uintN, boolean, Container, Union and "
-            "Vector/List of non-basic elements (any nesting) and every well-formed value, the constructed backing tree "
-            "serialises to exactly the spec bytes and count (any hash function). Packed basic sequences, bit and byte "
-            "arrays, mutated trees: correspondence (encode_bytes, serialize(stream) bytes + count, bytes()).",
-            "Coq proof (full serialize theorem for composite kinds, offset bookkeeping, leaf kinds) + correspondence", "5 (C02)"),
+    "C02": ("Theorem C02_constructed (full statement): for EVERY type (uintN, boolean, bit/byte vectors and lists, packed and "
+            "composite vectors/lists, containers, unions, any nesting) and every well-formed value, the backing tree the "
+            "constructor builds serialises (getter-by-gindex reads, chunk slicing, bitlist delimiter bit, mix-in reads, "
+            "offsets) to exactly the spec bytes and the returned count is their length, for any hash function; plus the "
+            "offset / count bookkeeping theorems for ARBITRARY element encodings and the spec length bounds. Mutated "
+            "backings and the Python glue (encode_bytes, serialize(stream), bytes()): correspondence.",
+            "Coq proof (full serialize theorem, all types) + correspondence", "5 (C02)"),
     "C03": ("Theorems: uintN / boolean decode(encode(v)) from a stream with an arbitrary suffix returns the constructed "
             "backing and the untouched suffix. Other kinds: correspondence (prefix / suffix around the encoding, exact "
             "scope; success, root, re-encoding, ==, bytes consumed).",
